@@ -153,6 +153,7 @@ func processStorageKeys(storageKeys []StorageKeys) ([]StorageKeys, *jsonrpc.Erro
 	}
 
 	merged := make(map[felt.Felt][]felt.Felt, len(storageKeys))
+	order := make([]felt.Felt, 0, len(storageKeys))
 	for _, sk := range storageKeys {
 		// Ensure that both contract and keys are provided
 		if sk.Contract == nil {
@@ -163,12 +164,16 @@ func processStorageKeys(storageKeys []StorageKeys) ([]StorageKeys, *jsonrpc.Erro
 		}
 
 		contract := *sk.Contract
+		if _, seen := merged[contract]; !seen {
+			order = append(order, contract)
+		}
 		merged[contract] = append(merged[contract], sk.Keys...)
 	}
 
 	uniqueStorageKeys := make([]StorageKeys, 0, len(merged))
-	for contract, keys := range merged {
-		uniqueStorageKeys = append(uniqueStorageKeys, StorageKeys{Contract: &contract, Keys: utils.Set(keys)})
+	// contracts_storage_proofs carries no addresses: keep the request (first-occurrence) order
+	for _, contract := range order {
+		uniqueStorageKeys = append(uniqueStorageKeys, StorageKeys{Contract: &contract, Keys: utils.Set(merged[contract])})
 	}
 
 	return uniqueStorageKeys, nil
